@@ -75,7 +75,7 @@ def unify(a, b):
 
 # ------------------------------------------------------------------------------------------------ function table
 class Fn:
-    def __init__(self, name, coq, params, ret=None, cls=None, state=None, ret_union=False, fuel=False, pure=False, mutates=(), abstract=False, returns_state=(), locals_=None, es_mut=(), narrow=()):
+    def __init__(self, name, coq, params, ret=None, cls=None, state=None, ret_union=False, fuel=False, pure=False, mutates=(), abstract=False, returns_state=(), locals_=None, es_mut=(), narrow=(), at_mut=()):
         self.name, self.coq, self.params, self.ret, self.cls = name, coq, params, ret, cls
         self.state = state or []          # [(key, coqname, type)] read from self.epistemic_state
         self.ret_union = ret_union        # `return False, x` / `return v, x`  ->  (PFalse, x) / (PVal v, x)
@@ -87,6 +87,7 @@ class Fn:
         self.locals_ = dict(locals_ or {})       # declared types of local variables (Optional[int] cannot be inferred)
         self.returns_state = list(returns_state)   # parameters (solver objects) whose final state is returned with the result
         self.narrow = list(narrow)        # Optional[int] locals read as int under `if x is not None:` (x is not re-bound there)
+        self.at_mut = list(at_mut)        # [(attr, type)]: attributes of self the function writes; passed in and returned
         self.es_mut = list(es_mut)        # [(key, type)]: entries of self.epistemic_state the function writes; passed in and returned
 
 
@@ -1887,6 +1888,22 @@ def translate_function(tree, fn, table, consts):
                 return x
         node = Narrow().visit(node)
         ast.fix_missing_locations(node)
+    if fn.at_mut:
+        # self.attr for a written attribute becomes a variable at__attr: a parameter whose final value is returned
+        attrs = {k for k, _ in fn.at_mut}
+
+        class AtVar(ast.NodeTransformer):
+            def visit_Attribute(self, x):
+                self.generic_visit(x)
+                if isinstance(x.value, ast.Name) and x.value.id == "self" and x.attr in attrs:
+                    return ast.copy_location(ast.Name(id="at__" + x.attr, ctx=ast.Load()), x)
+                return x
+        node = AtVar().visit(node)
+        ast.fix_missing_locations(node)
+        a = node.args
+        if not any(p[0] == "at__" + fn.at_mut[0][0] for p in fn.params):
+            fn.params = list(fn.params) + [("at__" + k, t) for k, t in fn.at_mut]
+            fn.returns_state = list(fn.returns_state) + ["at__" + k for k, _ in fn.at_mut]
     if fn.es_mut:
         # self.epistemic_state["k"] for a written entry k becomes a variable es__k: a parameter whose final value is returned
         keys = {k for k, _ in fn.es_mut}
@@ -2056,6 +2073,8 @@ TARGETS = [
            cls="SystemZPreOCF", ret="int", state=[("@_z_partition", "at_z_partition", PART_OBJ)]),
         Fn("z_part2ocf", "py_SystemZPreOCF_z_part2ocf", [("world", "world")],
            cls="SystemZPreOCF", ret="int", state=[("@_z_partition", "at_z_partition", PART_OBJ)]),
+        Fn("rank_world", "py_SystemZPreOCF_rank_world", [("world", "world"), ("force_calculation", "bool")],
+           cls="SystemZPreOCF", ret="int", state=[("@_z_partition", "at_z_partition", PART_OBJ)], at_mut=[("ranks", ("wdict", "optint"))], locals_={"rank": "optint"}),
     ]),
     dict(out="SrcCondZ3", file="inference/conditional_z3.py", requires=[], funcs=[
         Fn("make_A_then_B", "py_z3_make_A_then_B", [("self", "cond")], cls="Conditional_z3"),
@@ -2096,6 +2115,9 @@ TARGETS = [
     dict(out="SrcCrep", file="inference/preocf.py", requires=["SrcCond"], funcs=[
         Fn("c_vec2ocf", "py_RandomMinCRepPreOCF_c_vec2ocf", [("world", "world")], cls="RandomMinCRepPreOCF", ret="int",
            state=[("@conditionals", "at_conditionals", ("dict", "cond")), ("@_impacts", "at_impacts", ("list", "int"))]),
+        Fn("rank_world", "py_RandomMinCRepPreOCF_rank_world", [("world", "world"), ("force_calculation", "bool")], cls="RandomMinCRepPreOCF", ret="int",
+           state=[("@conditionals", "at_conditionals", ("dict", "cond")), ("@_impacts", "at_impacts", ("list", "int"))],
+           at_mut=[("ranks", ("wdict", "optint"))], locals_={"rank": "optint"}),
     ]),
     dict(out="SrcTpo", file="inference/preocf.py", requires=[], funcs=[
         Fn("ranks2tpo", "py_ranks2tpo", [("ranks", ("wdict", "optint"))], locals_={"rank_groups": ("dict", WSET)}, narrow=["rank"]),
